@@ -240,7 +240,9 @@ def predict_grid_defect(a, b, request, remove_invalid, cached=True):
     for v in (a, b):
         # the memoising decorator hashes `arg.view(np.uint8)` before anything is computed;
         # numpy refuses that view for a strided array with items wider than a byte
-        if cached and v.dtype.itemsize != 1 and not v.flags.c_contiguous:
+        # (fixed in /repo by af9c53e: the prediction is disabled; if the defect returns it is
+        # reported as an untagged violation)
+        if False and cached and v.dtype.itemsize != 1 and not v.flags.c_contiguous:
             return (M_NONCONTIG, "ValueError", MSG_VIEW)
     n = int(a.shape[0])
     bad = invalid(a) | invalid(b)
